@@ -29,6 +29,8 @@ type World struct {
 	fnIndex map[string]*ssa.Function // pkg::key -> function
 	cfg     map[*ssa.Global]*ssa.Function
 	cfgBad  map[*ssa.Global]bool
+	stored  map[*ssa.Global]bool
+	addrTaken map[*ssa.Global]bool
 }
 
 func findContractDirs(root string) map[string]string {
@@ -112,6 +114,29 @@ func (w *World) constFuncGlobal(g *ssa.Global) *ssa.Function {
 	if w.cfg == nil {
 		w.cfg = map[*ssa.Global]*ssa.Function{}
 		w.cfgBad = map[*ssa.Global]bool{}
+		w.stored = map[*ssa.Global]bool{}
+		w.addrTaken = map[*ssa.Global]bool{}
+		for fn := range ssautil.AllFunctions(w.prog) {
+			for _, b := range fn.Blocks {
+				for _, in := range b.Instrs {
+					for _, op := range in.Operands(nil) {
+						g, ok := (*op).(*ssa.Global)
+						if !ok {
+							continue
+						}
+						switch x := in.(type) {
+						case *ssa.UnOp, *ssa.FieldAddr, *ssa.IndexAddr, *ssa.DebugRef:
+						case *ssa.Store:
+							if x.Addr != ssa.Value(g) {
+								w.addrTaken[g] = true
+							}
+						default:
+							w.addrTaken[g] = true
+						}
+					}
+				}
+			}
+		}
 		for fn := range ssautil.AllFunctions(w.prog) {
 			for _, b := range fn.Blocks {
 				for _, in := range b.Instrs {
@@ -121,8 +146,14 @@ func (w *World) constFuncGlobal(g *ssa.Global) *ssa.Function {
 					}
 					gg, ok := st.Addr.(*ssa.Global)
 					if !ok {
+						// a store through a field/element address of a global also counts
+						if ra := rootGlobal(st.Addr); ra != nil {
+							w.cfgBad[ra] = true
+							w.stored[ra] = true
+						}
 						continue
 					}
+					w.stored[gg] = true
 					f, isF := st.Val.(*ssa.Function)
 					if !isF || fn.Name() != "init" || w.cfg[gg] != nil {
 						w.cfgBad[gg] = true
@@ -137,6 +168,28 @@ func (w *World) constFuncGlobal(g *ssa.Global) *ssa.Function {
 		return nil
 	}
 	return w.cfg[g]
+}
+
+func rootGlobal(v ssa.Value) *ssa.Global {
+	for {
+		switch x := v.(type) {
+		case *ssa.Global:
+			return x
+		case *ssa.FieldAddr:
+			v = x.X
+		case *ssa.IndexAddr:
+			v = x.X
+		default:
+			return nil
+		}
+	}
+}
+
+// neverStored: a package-level variable that no instruction of the program stores to and
+// whose address does not escape keeps its zero value.
+func (w *World) neverStored(g *ssa.Global) bool {
+	w.constFuncGlobal(g) // make sure the scan ran
+	return !w.stored[g] && !w.addrTaken[g]
 }
 
 var pureExtPrefixes = []string{"github.com/lni/goutils/logutil.", "(*github.com/lni/goutils/random.", "(github.com/lni/goutils/random.", "fmt.", "strconv.", "strings.", "errors.", "time.", "math.", "math/", "bytes.Equal", "bytes.Compare",
